@@ -30,7 +30,6 @@ theorem patValsSim_succ {n : Nat} (ihE : ExprSim S n) (ihPV : PatValsSim S n) : 
       have pre : Steps S.m (stAt (v :: junk) base env fr K wp log)
           ⟨.bool (isWrap w v) :: (v :: junk ++ base), env :: fr, base.length :: K, wp + 1 + 1, log⟩ :=
         (Steps.one (step_dup hdup)).trans (Steps.one (step_is his))
-      dsimp only
       by_cases hiw : isWrap w v = true
       · simp only [hiw, if_true, Outcome]
         rw [hiw] at pre
@@ -62,7 +61,6 @@ theorem patValsSim_succ {n : Nat} (ihE : ExprSim S n) (ihPV : PatValsSim S n) : 
       have pre : Steps S.m (stAt (v :: junk) base env fr K wp log) (stAt (v :: v :: junk) base env fr K (wp + 1) log) :=
         Steps.one (step_dup hdup)
       have ihe := ihE pe env log (wp + 1) c (v :: v :: junk) base fr K hsup.1 hcE hdefs.1
-      dsimp only
       cases hre : evalExpr S.m.p n env log pe with
       | val lit l =>
         rw [hre] at ihe; simp only [Outcome] at ihe
@@ -82,7 +80,7 @@ theorem patValsSim_succ {n : Nat} (ihE : ExprSim S n) (ihPV : PatValsSim S n) : 
             have e : wp + 1 + (compileExpr S.m.p.structs (wp + 1) c pe).code.length + 1 + 1 =
                 wp + 1 + (compileExpr S.m.p.structs (wp + 1) c pe).code.length + 2 := by omega
             rw [← e]; exact hcR
-          have ihr := ihPV rest v env l _ _ arm armAddr junk base fr K hsup.2 hcR' hdefs.2
+          have ihr := ihPV rest v env l _ _ arm armAddr junk base fr K hsup.2 hcR' hdefs.2 harm
           refine Outcome.of_steps (Steps.cast_pc pre3 (by omega)) (Outcome.cast ihr ?_)
           intro b l'; congr 1
           cases b <;> simp only [Bool.false_eq_true, if_false, if_true, List.length_append, List.length_cons, List.length_nil]
@@ -141,5 +139,390 @@ theorem selectSim_succ {n : Nat} (ihPV : PatValsSim S n) (ihSel : SelectSim S n)
               rw [e] at this; exact this)
           exact Outcome.of_steps ihv ihr
       | _ => first | (rw [hrv] at ihv; exact ihv) | trivial
+
+/-- the instructions between `Block` and an arm's body -/
+def armPre : Pat → List Instr
+  | .values vs => (match firstBinding vs with
+    | some (w, x) => [.Unwrap w, .Def x]
+    | none => [.Pop])
+  | .default => [.Pop]
+
+theorem tests_labels_length (sd : Defs) : ∀ (pats : List Pat) (wp c : Nat),
+    (compileTestsP sd wp c pats).2.length = pats.length
+  | [], _, _ => by simp [compileTestsP]
+  | .values vs :: rest, wp, c => by simp [compileTestsP, tests_labels_length sd rest]
+  | .default :: rest, wp, c => by simp [compileTestsP, tests_labels_length sd rest]
+
+theorem compileArmsE_cons (sd : Defs) (wp c : Nat) (end_ l : Label) (ls : List Label) (pat : Pat) (body : Expr)
+    (rest : List (Pat × Expr)) :
+    compileArmsE sd wp c end_ (l :: ls) ((pat, body) :: rest) =
+      ⟨(.Block :: armPre pat ++ (compileExpr sd (wp + 1 + (armPre pat).length) c body).code ++ [.End, jmp end_]) ++
+        (compileArmsE sd (wp + 1 + (armPre pat).length + (compileExpr sd (wp + 1 + (armPre pat).length) c body).code.length + 2)
+          (compileExpr sd (wp + 1 + (armPre pat).length) c body).c end_ ls rest).code,
+       (l, wp) :: (compileExpr sd (wp + 1 + (armPre pat).length) c body).defs ++
+        (compileArmsE sd (wp + 1 + (armPre pat).length + (compileExpr sd (wp + 1 + (armPre pat).length) c body).code.length + 2)
+          (compileExpr sd (wp + 1 + (armPre pat).length) c body).c end_ ls rest).defs,
+       (compileArmsE sd (wp + 1 + (armPre pat).length + (compileExpr sd (wp + 1 + (armPre pat).length) c body).code.length + 2)
+          (compileExpr sd (wp + 1 + (armPre pat).length) c body).c end_ ls rest).c⟩ := by
+  cases pat with
+  | default => simp [compileArmsE, armPre, List.append_assoc]
+  | values vs =>
+    cases hfb : firstBinding vs with
+    | none => simp [compileArmsE, armPre, hfb, List.append_assoc]
+    | some wx => obtain ⟨w, x⟩ := wx; simp [compileArmsE, armPre, hfb, List.append_assoc]
+
+/-- where arm `k` of a match expression sits and what its label resolves to -/
+theorem arm_layoutE : ∀ (arms : List (Pat × Expr)) (ls : List Label) (wp c : Nat) (end_ : Label) (k : Nat)
+    (pat : Pat) (body : Expr) (lk : Label),
+    arms[k]? = some (pat, body) → ls[k]? = some lk →
+    CodeAt S.labels S.m.prog wp (compileArmsE S.m.p.structs wp c end_ ls arms).code →
+    DefsOk S.labels (compileArmsE S.m.p.structs wp c end_ ls arms).defs →
+    ∃ wpk ck, lookupLabel S.labels lk = some wpk ∧
+      CodeAt S.labels S.m.prog wpk (.Block :: armPre pat ++
+        (compileExpr S.m.p.structs (wpk + 1 + (armPre pat).length) ck body).code ++ [.End, jmp end_]) ∧
+      DefsOk S.labels (compileExpr S.m.p.structs (wpk + 1 + (armPre pat).length) ck body).defs
+  | [], _, _, _, _, k, _, _, _, h, _, _, _ => by simp at h
+  | _ :: _, [], _, _, _, k, _, _, _, _, h, _, _ => by simp at h
+  | (p0, b0) :: rest, l0 :: ls, wp, c, end_, k, pat, body, lk, ha, hl, hcode, hdefs => by
+    rw [compileArmsE_cons] at hcode hdefs
+    have hcode' := hcode
+    have hdefs' := hdefs
+    simp only at hcode' hdefs'
+    rw [codeAt_append] at hcode'
+    rw [List.cons_append, defsOk_cons, defsOk_append] at hdefs'
+    cases k with
+    | zero =>
+      simp only [List.getElem?_cons_zero, Option.some.injEq] at ha hl
+      cases ha; subst hl
+      exact ⟨wp, c, hdefs'.1, hcode'.1, hdefs'.2.1⟩
+    | succ k =>
+      simp only [List.getElem?_cons_succ] at ha hl
+      have hlen : wp + (Instruction.Block :: armPre p0 ++ (compileExpr S.m.p.structs (wp + 1 + (armPre p0).length) c b0).code ++
+          [Instruction.End, jmp end_]).length = wp + 1 + (armPre p0).length +
+            (compileExpr S.m.p.structs (wp + 1 + (armPre p0).length) c b0).code.length + 2 := by
+        simp only [List.length_cons, List.length_append, List.length_nil]; omega
+      rw [hlen] at hcode'
+      exact arm_layoutE rest ls _ _ end_ k pat body lk ha hl hcode'.2 hdefs'.2.2
+
+/-- `Block`, then the arm's binding (or `Pop`): the VM's scopes become what `bindArm` computes -/
+theorem arm_prologue {m : Machine} {labels : List (Label × Nat)} (pat : Pat) (v : Val) (env env' : Env)
+    (σ : List Val) (fr : List Env) (K : List Nat) (pc : Nat) (lg : Log)
+    (hcode : CodeAt labels m.prog pc (.Block :: armPre pat))
+    (hb : bindArm m.p ([] :: env) v pat = some env') :
+    Steps m ⟨v :: σ, env :: fr, K, pc, lg⟩ ⟨σ, env' :: fr, K, pc + 1 + (armPre pat).length, lg⟩ := by
+  rw [codeAt_cons] at hcode
+  simp only [res] at hcode
+  have pre : Steps m ⟨v :: σ, env :: fr, K, pc, lg⟩ ⟨v :: σ, ([] :: env) :: fr, K, pc + 1, lg⟩ :=
+    Steps.one (step_block hcode.1)
+  have hpop : ∀ (h : CodeAt labels m.prog (pc + 1) [Instruction.Pop]),
+      Steps m ⟨v :: σ, ([] :: env) :: fr, K, pc + 1, lg⟩ ⟨σ, ([] :: env) :: fr, K, pc + 1 + 1, lg⟩ := by
+    intro h
+    simp only [codeAt_single, res] at h
+    exact Steps.one (step_pop h)
+  cases pat with
+  | default =>
+    simp only [bindArm, Option.some.injEq] at hb
+    subst hb
+    simp only [armPre, List.length_singleton] at hcode ⊢
+    exact pre.trans (hpop hcode.2)
+  | values vs =>
+    simp only [bindArm] at hb
+    simp only [armPre] at hcode ⊢
+    cases hf : firstBinding vs with
+    | none =>
+      rw [hf] at hb hcode
+      simp only [Option.some.injEq] at hb
+      subst hb
+      simp only [List.length_singleton]
+      exact pre.trans (hpop hcode.2)
+    | some wx =>
+      obtain ⟨w, x⟩ := wx
+      rw [hf] at hb hcode
+      simp only at hb hcode ⊢
+      cases hu : unwrap w v with
+      | none => rw [hu] at hb; cases hb
+      | some inner =>
+        rw [hu] at hb
+        simp only [codeAt_cons, CodeAt.nil, and_true, res] at hcode
+        refine pre.trans ((Steps.one (step_unwrap hcode.2.1 hu)).trans ?_)
+        simp only [List.length_cons, List.length_nil]
+        exact Steps.one (step_def hcode.2.2 hb)
+
+theorem supArmsE_pats : ∀ (arms : List (Pat × Expr)), supArmsE arms = true → supPats (arms.map (·.1)) = true
+  | [], _ => rfl
+  | (p, e) :: rest, h => by
+    simp only [supArmsE, Bool.and_eq_true] at h
+    simp only [List.map_cons, supPats, Bool.and_eq_true]
+    exact ⟨h.1.1, supArmsE_pats rest h.2⟩
+
+theorem supArmsE_get : ∀ (arms : List (Pat × Expr)) (k : Nat) (pat : Pat) (body : Expr),
+    supArmsE arms = true → arms[k]? = some (pat, body) → supE body = true
+  | [], _, _, _, _, h => by simp at h
+  | (p, e) :: rest, 0, pat, body, hs, h => by
+    simp only [supArmsE, Bool.and_eq_true] at hs
+    simp only [List.getElem?_cons_zero, Option.some.injEq, Prod.mk.injEq] at h
+    rw [← h.2]; exact hs.1.2
+  | (p, e) :: rest, k + 1, pat, body, hs, h => by
+    simp only [supArmsE, Bool.and_eq_true] at hs
+    simp only [List.getElem?_cons_succ] at h
+    exact supArmsE_get rest k pat body hs.2 h
+
+theorem sim_match {n : Nat} (ihE : ExprSim S n) (ihSel : SelectSim S n) (scrut : Expr) (arms : List (Pat × Expr)) :
+    ExprCase S (n + 1) (.mtch scrut arms) := by
+  intro env log wp c junk base fr K hsup hcode hdefs
+  simp only [supE, Bool.and_eq_true] at hsup
+  simp only [compileExpr, compileTestsE_eq, defsOk_append, defsOk_cons, DefsOk.nil, and_true, codeAt_append] at hcode hdefs
+  obtain ⟨⟨⟨hdS, hdT⟩, hdA⟩, hend⟩ := hdefs
+  obtain ⟨⟨hcS, hcT⟩, hcA⟩ := hcode
+  normpc at hcA
+  have hpcEnd : wp + (compileExpr S.m.p.structs wp c (.mtch scrut arms)).code.length =
+      wp + (compileExpr S.m.p.structs wp c scrut).code.length +
+        (compileTestsP S.m.p.structs (wp + (compileExpr S.m.p.structs wp c scrut).code.length)
+          ((compileExpr S.m.p.structs wp c scrut).c + 1) (arms.map (·.1))).1.code.length +
+        (compileArmsE S.m.p.structs (wp + (compileExpr S.m.p.structs wp c scrut).code.length +
+          (compileTestsP S.m.p.structs (wp + (compileExpr S.m.p.structs wp c scrut).code.length)
+            ((compileExpr S.m.p.structs wp c scrut).c + 1) (arms.map (·.1))).1.code.length)
+          (compileTestsP S.m.p.structs (wp + (compileExpr S.m.p.structs wp c scrut).code.length)
+            ((compileExpr S.m.p.structs wp c scrut).c + 1) (arms.map (·.1))).1.c
+          (Label.anon (compileExpr S.m.p.structs wp c scrut).c)
+          (compileTestsP S.m.p.structs (wp + (compileExpr S.m.p.structs wp c scrut).code.length)
+            ((compileExpr S.m.p.structs wp c scrut).c + 1) (arms.map (·.1))).2 arms).code.length := by
+    simp only [compileExpr, compileTestsE_eq, List.length_append]; omega
+  -- abbreviations
+  generalize hSo : compileExpr S.m.p.structs wp c scrut = So at *
+  generalize hTo : compileTestsP S.m.p.structs (wp + So.code.length) (So.c + 1) (arms.map (·.1)) = To at *
+  -- addresses of the arms
+  let addrOf : Nat → Nat := fun i => ((To.2[i]?).bind (lookupLabel S.labels)).getD 0
+  have hlen : To.2.length = arms.length := by
+    rw [← hTo, tests_labels_length]; simp
+  have haddr : ∀ i l, To.2[i]? = some l → lookupLabel S.labels l = some (addrOf (0 + i)) := by
+    intro i l hi
+    have hi' : i < arms.length := by
+      rw [← hlen]; exact (List.getElem?_eq_some_iff.mp hi).1
+    obtain ⟨⟨pat, body⟩, harm⟩ : ∃ pb, arms[i]? = some pb := ⟨arms[i], List.getElem?_eq_getElem hi'⟩
+    obtain ⟨wpk, ck, hlk, _, _⟩ := arm_layoutE S arms To.2 _ _ (Label.anon So.c) i pat body l harm hi hcA hdA
+    simp only [addrOf, Nat.zero_add, hi, Option.bind_some, hlk, Option.getD_some]
+  have ihs := ihE scrut env log wp c junk base fr K hsup.1 (by rw [hSo]; exact hcS) (by rw [hSo]; exact hdS)
+  rw [hSo] at ihs
+  simp only [evalExpr]
+  cases hrs : evalExpr S.m.p n env log scrut with
+  | val v l =>
+    rw [hrs] at ihs; simp only [Outcome] at ihs
+    dsimp only
+    have ihsel := ihSel (arms.map (·.1)) v env l (wp + So.code.length) (So.c + 1) 0 addrOf junk base fr K
+      (supArmsE_pats arms hsup.2) (by rw [hTo]; exact hcT) (by rw [hTo]; exact hdT) (by rw [hTo]; exact haddr)
+    cases hrk : selectArm S.m.p n env l v (arms.map (·.1)) 0 with
+    | val k l' =>
+      rw [hrk] at ihsel; simp only [Outcome] at ihsel
+      dsimp only
+      cases harm : arms[k]? with
+      | none => trivial
+      | some pb =>
+        obtain ⟨pat, body⟩ := pb
+        dsimp only
+        cases hb : bindArm S.m.p ([] :: env) v pat with
+        | none => trivial
+        | some env' =>
+          dsimp only
+          have hk : k < To.2.length := by
+            rw [hlen]; exact (List.getElem?_eq_some_iff.mp harm).1
+          have hlk : To.2[k]? = some To.2[k] := List.getElem?_eq_getElem hk
+          obtain ⟨wpk, ck, hlook, hcArm, hdB⟩ := arm_layoutE S arms To.2 _ _ (Label.anon So.c) k pat body _ harm hlk hcA hdA
+          have hak : addrOf k = wpk := by
+            simp only [addrOf, hlk, Option.bind_some, hlook, Option.getD_some]
+          rw [hak] at ihsel
+          have hcArm' : CodeAt S.labels S.m.prog wpk ((Instruction.Block :: armPre pat) ++
+              (compileExpr S.m.p.structs (wpk + 1 + (armPre pat).length) ck body).code ++ [Instruction.End, jmp (Label.anon So.c)]) := by
+            simpa [List.append_assoc] using hcArm
+          rw [codeAt_append, codeAt_append] at hcArm'
+          obtain ⟨⟨hcPre, hcB⟩, hcTail⟩ := hcArm'
+          simp only [codeAt_cons, CodeAt.nil, and_true, res_jmp hend] at hcTail
+          simp only [res] at hcTail
+          have e1 : wpk + (Instruction.Block :: armPre pat).length = wpk + 1 + (armPre pat).length := by
+            simp only [List.length_cons]; omega
+          rw [e1] at hcB
+          have pro := arm_prologue (m := S.m) (labels := S.labels) pat v env env' (junk ++ base) fr (base.length :: K) wpk l' hcPre hb
+          obtain ⟨b, rfl⟩ := bindArm_tail hb
+          have ihb := ihE body (b :: env) l' _ ck junk base fr K (supArmsE_get arms k pat body hsup.2 harm) hcB hdB
+          have pre := ihs.trans (ihsel.trans pro)
+          cases hrb : evalExpr S.m.p n (b :: env) l' body with
+          | val r l'' =>
+            rw [hrb] at ihb; simp only [Outcome] at ihb ⊢
+            refine pre.trans (ihb.trans ?_)
+            have e2 : wpk + ((Instruction.Block :: armPre pat) ++
+                (compileExpr S.m.p.structs (wpk + 1 + (armPre pat).length) ck body).code).length =
+                wpk + 1 + (armPre pat).length + (compileExpr S.m.p.structs (wpk + 1 + (armPre pat).length) ck body).code.length := by
+              simp only [List.length_cons, List.length_append]; omega
+            rw [e2] at hcTail
+            refine (Steps.one (step_end hcTail.1)).trans ?_
+            exact Steps.cast_pc (Steps.one (step_jump hcTail.2)) hpcEnd.symm
+          | _ => first | (rw [hrb] at ihb; exact Outcome.of_steps pre ihb) | trivial
+    | _ => first | (rw [hrk] at ihsel; exact Outcome.of_steps ihs ihsel) | trivial
+  | _ => first | (rw [hrs] at ihs; exact ihs) | trivial
+
+/-! ### the statement form -/
+
+theorem compileArmsS_cons (sd : Defs) (wp c : Nat) (end_ l : Label) (ls : List Label) (pat : Pat) (body : List Stmt)
+    (rest : List (Pat × List Stmt)) :
+    compileArmsS sd wp c end_ (l :: ls) ((pat, body) :: rest) =
+      ⟨(.Block :: armPre pat ++ (compileStmts sd (wp + 1 + (armPre pat).length) c body).code ++ [.End, jmp end_]) ++
+        (compileArmsS sd (wp + 1 + (armPre pat).length + (compileStmts sd (wp + 1 + (armPre pat).length) c body).code.length + 2)
+          (compileStmts sd (wp + 1 + (armPre pat).length) c body).c end_ ls rest).code,
+       (l, wp) :: (compileStmts sd (wp + 1 + (armPre pat).length) c body).defs ++
+        (compileArmsS sd (wp + 1 + (armPre pat).length + (compileStmts sd (wp + 1 + (armPre pat).length) c body).code.length + 2)
+          (compileStmts sd (wp + 1 + (armPre pat).length) c body).c end_ ls rest).defs,
+       (compileArmsS sd (wp + 1 + (armPre pat).length + (compileStmts sd (wp + 1 + (armPre pat).length) c body).code.length + 2)
+          (compileStmts sd (wp + 1 + (armPre pat).length) c body).c end_ ls rest).c⟩ := by
+  cases pat with
+  | default => simp [compileArmsS, armPre, List.append_assoc]
+  | values vs =>
+    cases hfb : firstBinding vs with
+    | none => simp [compileArmsS, armPre, hfb, List.append_assoc]
+    | some wx => obtain ⟨w, x⟩ := wx; simp [compileArmsS, armPre, hfb, List.append_assoc]
+
+theorem arm_layoutS : ∀ (arms : List (Pat × List Stmt)) (ls : List Label) (wp c : Nat) (end_ : Label) (k : Nat)
+    (pat : Pat) (body : List Stmt) (lk : Label),
+    arms[k]? = some (pat, body) → ls[k]? = some lk →
+    CodeAt S.labels S.m.prog wp (compileArmsS S.m.p.structs wp c end_ ls arms).code →
+    DefsOk S.labels (compileArmsS S.m.p.structs wp c end_ ls arms).defs →
+    ∃ wpk ck, lookupLabel S.labels lk = some wpk ∧
+      CodeAt S.labels S.m.prog wpk (.Block :: armPre pat ++
+        (compileStmts S.m.p.structs (wpk + 1 + (armPre pat).length) ck body).code ++ [.End, jmp end_]) ∧
+      DefsOk S.labels (compileStmts S.m.p.structs (wpk + 1 + (armPre pat).length) ck body).defs
+  | [], _, _, _, _, k, _, _, _, h, _, _, _ => by simp at h
+  | _ :: _, [], _, _, _, k, _, _, _, _, h, _, _ => by simp at h
+  | (p0, b0) :: rest, l0 :: ls, wp, c, end_, k, pat, body, lk, ha, hl, hcode, hdefs => by
+    rw [compileArmsS_cons] at hcode hdefs
+    have hcode' := hcode
+    have hdefs' := hdefs
+    simp only at hcode' hdefs'
+    rw [codeAt_append] at hcode'
+    rw [List.cons_append, defsOk_cons, defsOk_append] at hdefs'
+    cases k with
+    | zero =>
+      simp only [List.getElem?_cons_zero, Option.some.injEq] at ha hl
+      cases ha; subst hl
+      exact ⟨wp, c, hdefs'.1, hcode'.1, hdefs'.2.1⟩
+    | succ k =>
+      simp only [List.getElem?_cons_succ] at ha hl
+      have hlen : wp + (Instruction.Block :: armPre p0 ++ (compileStmts S.m.p.structs (wp + 1 + (armPre p0).length) c b0).code ++
+          [Instruction.End, jmp end_]).length = wp + 1 + (armPre p0).length +
+            (compileStmts S.m.p.structs (wp + 1 + (armPre p0).length) c b0).code.length + 2 := by
+        simp only [List.length_cons, List.length_append, List.length_nil]; omega
+      rw [hlen] at hcode'
+      exact arm_layoutS rest ls _ _ end_ k pat body lk ha hl hcode'.2 hdefs'.2.2
+
+theorem supArmsS_pats : ∀ (arms : List (Pat × List Stmt)), supArmsS arms = true → supPats (arms.map (·.1)) = true
+  | [], _ => rfl
+  | (p, e) :: rest, h => by
+    simp only [supArmsS, Bool.and_eq_true] at h
+    simp only [List.map_cons, supPats, Bool.and_eq_true]
+    exact ⟨h.1.1, supArmsS_pats rest h.2⟩
+
+theorem supArmsS_get : ∀ (arms : List (Pat × List Stmt)) (k : Nat) (pat : Pat) (body : List Stmt),
+    supArmsS arms = true → arms[k]? = some (pat, body) → supSs body = true
+  | [], _, _, _, _, h => by simp at h
+  | (p, e) :: rest, 0, pat, body, hs, h => by
+    simp only [supArmsS, Bool.and_eq_true] at hs
+    simp only [List.getElem?_cons_zero, Option.some.injEq, Prod.mk.injEq] at h
+    rw [← h.2]; exact hs.1.2
+  | (p, e) :: rest, k + 1, pat, body, hs, h => by
+    simp only [supArmsS, Bool.and_eq_true] at hs
+    simp only [List.getElem?_cons_succ] at h
+    exact supArmsS_get rest k pat body hs.2 h
+
+theorem sim_matchS {n : Nat} (ihE : ExprSim S n) (ihSs : StmtsSim S n) (ihSel : SelectSim S n) (scrut : Expr)
+    (arms : List (Pat × List Stmt)) : StmtCase S (n + 1) (.mtch scrut arms) := by
+  intro env log wp c junk base fr K hsup hcode hdefs
+  simp only [supS, Bool.and_eq_true] at hsup
+  simp only [compileStmt, compileTestsS_eq, defsOk_append, defsOk_cons, DefsOk.nil, and_true, codeAt_append] at hcode hdefs
+  obtain ⟨⟨⟨hdS, hdT⟩, hdA⟩, hend⟩ := hdefs
+  obtain ⟨⟨hcS, hcT⟩, hcA⟩ := hcode
+  normpc at hcA
+  have hpcEnd : wp + (compileStmt S.m.p.structs wp c (.mtch scrut arms)).code.length =
+      wp + (compileExpr S.m.p.structs wp c scrut).code.length +
+        (compileTestsP S.m.p.structs (wp + (compileExpr S.m.p.structs wp c scrut).code.length)
+          ((compileExpr S.m.p.structs wp c scrut).c + 1) (arms.map (·.1))).1.code.length +
+        (compileArmsS S.m.p.structs (wp + (compileExpr S.m.p.structs wp c scrut).code.length +
+          (compileTestsP S.m.p.structs (wp + (compileExpr S.m.p.structs wp c scrut).code.length)
+            ((compileExpr S.m.p.structs wp c scrut).c + 1) (arms.map (·.1))).1.code.length)
+          (compileTestsP S.m.p.structs (wp + (compileExpr S.m.p.structs wp c scrut).code.length)
+            ((compileExpr S.m.p.structs wp c scrut).c + 1) (arms.map (·.1))).1.c
+          (Label.anon (compileExpr S.m.p.structs wp c scrut).c)
+          (compileTestsP S.m.p.structs (wp + (compileExpr S.m.p.structs wp c scrut).code.length)
+            ((compileExpr S.m.p.structs wp c scrut).c + 1) (arms.map (·.1))).2 arms).code.length := by
+    simp only [compileStmt, compileTestsS_eq, List.length_append]; omega
+  generalize hSo : compileExpr S.m.p.structs wp c scrut = So at *
+  generalize hTo : compileTestsP S.m.p.structs (wp + So.code.length) (So.c + 1) (arms.map (·.1)) = To at *
+  let addrOf : Nat → Nat := fun i => ((To.2[i]?).bind (lookupLabel S.labels)).getD 0
+  have hlen : To.2.length = arms.length := by
+    rw [← hTo, tests_labels_length]; simp
+  have haddr : ∀ i l, To.2[i]? = some l → lookupLabel S.labels l = some (addrOf (0 + i)) := by
+    intro i l hi
+    have hi' : i < arms.length := by
+      rw [← hlen]; exact (List.getElem?_eq_some_iff.mp hi).1
+    obtain ⟨⟨pat, body⟩, harm⟩ : ∃ pb, arms[i]? = some pb := ⟨arms[i], List.getElem?_eq_getElem hi'⟩
+    obtain ⟨wpk, ck, hlk, _, _⟩ := arm_layoutS S arms To.2 _ _ (Label.anon So.c) i pat body l harm hi hcA hdA
+    simp only [addrOf, Nat.zero_add, hi, Option.bind_some, hlk, Option.getD_some]
+  have ihs := ihE scrut env log wp c junk base fr K hsup.1 (by rw [hSo]; exact hcS) (by rw [hSo]; exact hdS)
+  rw [hSo] at ihs
+  simp only [evalStmt]
+  cases hrs : evalExpr S.m.p n env log scrut with
+  | val v l =>
+    rw [hrs] at ihs; simp only [Outcome] at ihs
+    dsimp only
+    have ihsel := ihSel (arms.map (·.1)) v env l (wp + So.code.length) (So.c + 1) 0 addrOf junk base fr K
+      (supArmsS_pats arms hsup.2) (by rw [hTo]; exact hcT) (by rw [hTo]; exact hdT) (by rw [hTo]; exact haddr)
+    cases hrk : selectArm S.m.p n env l v (arms.map (·.1)) 0 with
+    | val k l' =>
+      rw [hrk] at ihsel; simp only [Outcome] at ihsel
+      dsimp only
+      cases harm : arms[k]? with
+      | none => trivial
+      | some pb =>
+        obtain ⟨pat, body⟩ := pb
+        dsimp only
+        cases hb : bindArm S.m.p ([] :: env) v pat with
+        | none => trivial
+        | some env' =>
+          dsimp only
+          have hk : k < To.2.length := by
+            rw [hlen]; exact (List.getElem?_eq_some_iff.mp harm).1
+          have hlk : To.2[k]? = some To.2[k] := List.getElem?_eq_getElem hk
+          obtain ⟨wpk, ck, hlook, hcArm, hdB⟩ := arm_layoutS S arms To.2 _ _ (Label.anon So.c) k pat body _ harm hlk hcA hdA
+          have hak : addrOf k = wpk := by
+            simp only [addrOf, hlk, Option.bind_some, hlook, Option.getD_some]
+          rw [hak] at ihsel
+          have hcArm' : CodeAt S.labels S.m.prog wpk ((Instruction.Block :: armPre pat) ++
+              (compileStmts S.m.p.structs (wpk + 1 + (armPre pat).length) ck body).code ++ [Instruction.End, jmp (Label.anon So.c)]) := by
+            simpa [List.append_assoc] using hcArm
+          rw [codeAt_append, codeAt_append] at hcArm'
+          obtain ⟨⟨hcPre, hcB⟩, hcTail⟩ := hcArm'
+          simp only [codeAt_cons, CodeAt.nil, and_true, res_jmp hend] at hcTail
+          simp only [res] at hcTail
+          have e1 : wpk + (Instruction.Block :: armPre pat).length = wpk + 1 + (armPre pat).length := by
+            simp only [List.length_cons]; omega
+          rw [e1] at hcB
+          have pro := arm_prologue (m := S.m) (labels := S.labels) pat v env env' (junk ++ base) fr (base.length :: K) wpk l' hcPre hb
+          have ihb := ihSs body env' l' _ ck junk base fr K (supArmsS_get arms k pat body hsup.2 harm) hcB hdB
+          have pre := ihs.trans (ihsel.trans pro)
+          cases hrb : evalStmts S.m.p n env' l' body with
+          | val env'' l'' =>
+            rw [hrb] at ihb; simp only [Outcome] at ihb
+            cases env'' with
+            | nil => trivial
+            | cons b2 rest' =>
+              simp only [Outcome]
+              refine pre.trans (ihb.trans ?_)
+              have e2 : wpk + ((Instruction.Block :: armPre pat) ++
+                  (compileStmts S.m.p.structs (wpk + 1 + (armPre pat).length) ck body).code).length =
+                  wpk + 1 + (armPre pat).length + (compileStmts S.m.p.structs (wpk + 1 + (armPre pat).length) ck body).code.length := by
+                simp only [List.length_cons, List.length_append]; omega
+              rw [e2] at hcTail
+              refine (Steps.one (step_end hcTail.1)).trans ?_
+              exact Steps.cast_pc (Steps.one (step_jump hcTail.2)) hpcEnd.symm
+          | _ => first | (rw [hrb] at ihb; exact Outcome.of_steps pre ihb) | trivial
+    | _ => first | (rw [hrk] at ihsel; exact Outcome.of_steps ihs ihsel) | trivial
+  | _ => first | (rw [hrs] at ihs; exact ihs) | trivial
 
 end AranyaV.Lang
